@@ -73,6 +73,12 @@ func genPlan(rng *rand.Rand, ci int) claimPlan {
 				ps.Volume = []string{"pvc", "pvc", "ephemeral"}[rng.Intn(3)]
 				ps.Detach = []int{0, 1, 3, 8, -1, -1}[rng.Intn(6)]
 			}
+			if ps.Kind == "succeeded" && ps.Volume == "" {
+				// a completed pod whose object lingers keeps its claim: the attachment of its volume blocks like any
+				// other drainable pod's (no PRNG draw, so the rest of the plan is unchanged; seeded change C09-e)
+				ps.Volume = "pvc"
+				ps.Detach = []int{-1, 8}[i%2]
+			}
 			if ps.Kind == "pdb" {
 				p.PDB = true
 			}
